@@ -90,7 +90,7 @@ func (m *MonC05) OnReq(w *World, r *Req) {
 				return
 			}
 		}
-		if r.Applied && r.Err == nil && r.Before != nil {
+		if r.Succeeded() && r.Before != nil {
 			st := strategy
 			if !managed {
 				st = "native"
@@ -107,13 +107,13 @@ func (m *MonC05) OnReq(w *World, r *Req) {
 	}
 	m.touch()
 	if !IsOwnedBy(r.Before, owner, strategy) {
-		if r.Err == nil {
+		if r.Succeeded() {
 			w.Report(Violation{Property: "C05", Rule: "foreign-touched", Sig: shortSite(r.Site) + "/" + staleTag(p, r), Seq: r.Seq,
 				Msg: fmt.Sprintf("teardown pass %d of %s %s issued %s on %s which at that instant it neither owned nor controlled (owners %v)", p.ID, p.Ctrl, p.Key, r.Verb, r.Key(), Owners(r.Before, strategy))})
 		}
 		return
 	}
-	if r.Err != nil || r.After == nil || IsControlledBy(r.Before, owner, strategy) {
+	if !r.Succeeded() || r.After == nil || IsControlledBy(r.Before, owner, strategy) {
 		return
 	}
 	// co-owned: only the own owner entry and the cache label may disappear
